@@ -163,3 +163,14 @@ def run(facts, rep, ctx):
     ef2(facts, rep)
     if ctx.get('flavor') != 'nochk':
         po5(facts, rep)
+
+
+_run_before_round2 = run
+
+
+def run(facts, rep, ctx):
+    """rules added after the second round of independent seeding (rules/round2.py)"""
+    _run_before_round2(facts, rep, ctx)
+    from . import round2
+    round2.sb11(facts, rep)
+
